@@ -28,8 +28,8 @@
      before it.
    - C04_merge_starts_at_common_domain: the first stamp of the result is the
      later of the two first stamps. *)
-From Coq Require Import List ZArith Lia.
-From RV Require Import Val Syntax Rho Dense DenseSem DenseMerge DenseMergeCorrect DenseEval DenseEvalCorrect DenseWin DenseVisitor DenseEvalMain ExtZ.
+From Coq Require Import List ZArith QArith Qround Lia.
+From RV Require Import Val Syntax Rho Dense DenseSem DenseMerge DenseMergeCorrect DenseEval DenseEvalCorrect DenseWin DenseVisitor DenseConst DenseReal DenseEvalMain ExtZ.
 Import ListNotations.
 Local Open Scope Z_scope.
 
@@ -69,6 +69,38 @@ Proof.
   rewrite (dstart0 W p H0 Hn) in G. exists s. split; [exact E|exact G].
 Qed.
 Print Assumptions C04_visitor.
+
+(* rhoZ is the dense-time semantics: over rational time, with suprema / infima over closed windows of rationals and the
+   sample lists read as right-continuous step functions, every supported formula has exactly one value at every time of
+   its domain, namely rhoZ at the tick floor(t) (for every predicate kind, so also for the IA-STL semantics) *)
+Theorem C04_real_time :
+  forall (VS : Val) (AR : Arith VS) (pk : formula -> formula -> pkind) (W : list dsig) (tend : Z), 0 <= tend ->
+    (forall s, In s W -> dsorted s /\ s <> [] /\ (forall a v, In (a, v) s -> a <= tend)) ->
+  forall p, dfrag p = true -> wf_bounds p = true -> (nvars p <= length W)%nat ->
+  forall t : Q, (inject_Z (dstart W p) <= t)%Q ->
+    RS AR pk W p t (rhoZ AR pk W tend p (Qfloor t)) /\ forall v, RS AR pk W p t v -> v = rhoZ AR pk W tend p (Qfloor t).
+Proof. intros VS AR pk W tend Ht HW p Hf Hb Hn t Hd. exact (real_time AR pk W tend Ht HW p Hf Hb Hn t Hd). Qed.
+Print Assumptions C04_real_time.
+
+(* both together: what the visitor builds, read at floor(t), is the dense-time robustness at the rational time t *)
+Theorem C04_dense_time :
+  forall (VS : Val) (AR : Arith VS), (forall l r, neg (a2 AR Sub l r) = a2 AR Sub r l) ->
+  forall (W : list dsig) (tend : Z), 0 <= tend ->
+    (forall s, In s W -> dsorted s /\ s <> [] /\ (forall a v, In (a, v) s -> a <= tend)) ->
+    (forall s, In s W -> start s = 0) ->
+  forall p, dfrag p = true -> wf_bounds p = true -> (nvars p <= length W)%nat ->
+    exists s, deval AR p W = Some s /\
+      forall t : Q, (0 <= t)%Q ->
+        RS AR (fun _ _ => PStd) W p t (den s (Qfloor t)) /\ forall v, RS AR (fun _ _ => PStd) W p t v -> v = den s (Qfloor t).
+Proof.
+  intros VS AR SN W tend Ht HW H0 p Hf Hb Hn.
+  destruct (deval_correct AR SN W tend Ht HW p Hf Hb (or_intror H0) Hn) as (s & E & G).
+  rewrite (dstart0 W p H0 Hn) in G. exists s. split; [exact E|]. intros t Hq.
+  assert (Hfl : 0 <= Qfloor t) by (change 0 with (Qfloor (inject_Z 0)); apply Qfloor_resp_le; exact Hq).
+  rewrite (good_den s 0 _ (Qfloor t) G Hfl).
+  apply (real_time AR (fun _ _ => PStd) W tend Ht HW p Hf Hb Hn t). rewrite (dstart0 W p H0 Hn). exact Hq.
+Qed.
+Print Assumptions C04_dense_time.
 
 (* formulas without bounded operators: signals may start anywhere, the result starts at the start of the domain of the formula *)
 Theorem C04_untimed :
